@@ -445,6 +445,24 @@ def prog():
     backend.prove()
     return out
 """, {"a": lambda c: SymInt(z3.Int("s_a")), "b": lambda c: SymInt(z3.Int("s_b"))}),
+        # two sub-circuit functions whose names differ only in punctuation: each keeps its own equation file and keys
+        "similar_function_names": ("""
+def prog():
+    @subqap("scale+2")
+    def f(v):
+        return v * v + 2
+    @subqap("scale*2")
+    def g(v):
+        return v * v * v
+    x = PrivVal(a)
+    y = f(x)
+    z = g(y)
+    y2 = f(z)
+    z2 = g(y2)
+    out = z2.val()
+    backend.prove()
+    return out
+""", {"a": lambda c: SymInt(z3.Int("s_a"))}),
         # the LAST traced statement is a sub-circuit call: its blocks and its [glue] line must be on disk at proving time
         "call_is_last_statement": ("""
 def prog():
@@ -481,7 +499,7 @@ def prog():
 
     # per program: sub-circuit function -> (secret arguments, secret results, calls)
     FUNCS = {"square_twice": {"sq": (1, 1, 2)}, "inconsistent_calls": {"chk": (1, 1, 2)},
-             "no_arguments_two_results": {"gen": (0, 2, 2)}, "scaled_and_constant_arguments": {"sc": (1, 1, 3)}, "import_after_call": {"sq": (1, 1, 2)}, "call_is_last_statement": {"sq": (1, 1, 2)}, "passthrough_result": {"rnd": (2, 2, 2)}, "plain_and_secret_arguments": {"mix": (2, 1, 2)}}
+             "no_arguments_two_results": {"gen": (0, 2, 2)}, "scaled_and_constant_arguments": {"sc": (1, 1, 3)}, "import_after_call": {"sq": (1, 1, 2)}, "call_is_last_statement": {"sq": (1, 1, 2)}, "passthrough_result": {"rnd": (2, 2, 2)}, "similar_function_names": {"scale+2": (1, 1, 2), "scale*2": (1, 1, 2)}, "plain_and_secret_arguments": {"mix": (2, 1, 2)}}
 
     def extra(self, c, r, wires, io, eqs, directives):
         p = self.prime
